@@ -65,6 +65,7 @@ type FuncContract struct {
 	Loops       map[string]*LoopSpec
 	LoopOrder   []string
 	Inline      bool
+	CoreTypes   bool // treat type parameters constrained to ~T0 as T0
 	IsIface     bool // contract on an interface method (no body to verify)
 	Logged      bool   // maintain call-log ghost variables calls_<Name>, arg_<Name>_<param>
 	LogName     string
@@ -115,7 +116,7 @@ type ContractFile struct {
 var clauseKeywords = map[string]bool{
 	"func": true, "lemma": true, "extern": true, "opaque": true, "pure": true, "props": true, "arith": true,
 	"requires": true, "ensures": true, "modifies": true, "loop": true, "inline": true, "trusted": true,
-	"nosafe": true, "effectfree": true, "uses": true, "ghost": true, "assigns": true, "logged": true, "callsite": true, "where": true, "global": true, "recvfrom": true, "sets": true,
+	"nosafe": true, "effectfree": true, "uses": true, "ghost": true, "assigns": true, "logged": true, "callsite": true, "where": true, "global": true, "recvfrom": true, "sets": true, "coretypes": true,
 }
 
 var labelRe = regexp.MustCompile(`^([A-Za-z_][A-Za-z0-9_]*)\s*:\s*([^:=].*)$`)
@@ -389,6 +390,8 @@ func ParseContractFile(path, pkgPath string) (*ContractFile, error) {
 			case "logged":
 				cur.Logged = true
 				cur.LogName = strings.TrimSpace(strings.TrimPrefix(rest, "as"))
+			case "coretypes":
+				cur.CoreTypes = true
 			case "inline":
 				cur.Inline = true
 			case "trusted":
